@@ -10,9 +10,21 @@
       per grammar = [start nt; start key; start index (U layer); nts; programs]
         nts = list of [[type; state]; key; rules],  rules = list of [symbol; index or -1]
         programs = [] when the program is not in the grammar, else
-                   [marked indices; derivation as list of [nt position; rule position]] *)
+                   [marked indices; derivation as list of [nt position; rule position]]
+    entry 2 (U layer on unambiguous rule tables, NN/EncodeU.v): case = [grammars; abstraction id; programs]
+      grammars = list of [table; starts], table as in Run/C04.v entry 2:
+                 list of [nt; rules], nt = [type; U], rules = list of [symbol; alternatives], alternative = list of nt
+      abstraction id: 0 primitive_presence, 1 ucfg_bigram, 2 identity (on the wire form of the states)
+    answer = [slices; slice size; start keys; output size; per grammar]
+      per grammar = [starts; nts; programs]
+        starts = list of [nt; key; start index]
+        nts = list of [nt; key; entries], entries = one [symbol; index or -1; alternative] per (rule, alternative)
+        programs = [] when no start symbol contains the program, else
+                   [number of derivations over all start symbols; position of the first start symbol containing it;
+                    marked indices; first derivation from that start as list of [nt position; entry position]]
+    entry 0: no model call (answer []) *)
 From Coq Require Import ZArith NArith List Bool.
-From PS Require Import Base.ListX Base.Sexp Base.Ty Base.Value Base.Prog Gram.Det Gram.Cfg NN.Encode.
+From PS Require Import Base.ListX Base.Sexp Base.Ty Base.Value Base.Prog Gram.Det Gram.Cfg Gram.U NN.Encode NN.EncodeU.
 Import ListNotations.
 Local Open Scope Z_scope.
 
@@ -91,8 +103,93 @@ Definition run_layer (s : sexp) : sexp :=
   | _ => bad_case
   end.
 
+(** ---- entry 2: U layer on unambiguous rule tables ---- *)
+Definition unt_of_sexp (s : sexp) : option unt :=
+  match s with L [t; a] => do t' <- ty_of_sexp t; Some (t', a) | _ => None end.
+Definition sexp_of_unt (x : unt) : sexp := L [sexp_of_ty (fst x); snd x].
+Definition ualt_of_sexp : sexp -> option ualt := asListOf unt_of_sexp.
+Definition utable_of_sexp : sexp -> option utable :=
+  asListOf (fun e => match e with
+                     | L [x; rs] =>
+                       do x' <- unt_of_sexp x;
+                       do rs' <- asListOf (fun r => match r with
+                                                    | L [sy; alts] => do sy' <- sym_of_sexp sy; do alts' <- asListOf ualt_of_sexp alts; Some (sy', alts')
+                                                    | _ => None
+                                                    end) rs;
+                       Some (x', rs')
+                     | _ => None
+                     end).
+Definition ugrammar_of_sexp (s : sexp) : option (utable * list unt) :=
+  match s with L [t; sts] => do t' <- utable_of_sexp t; do sts' <- asListOf unt_of_sexp sts; Some (t', sts') | _ => None end.
+
+Section UAnswer.
+  Variable abs : unt -> akey.
+  Variable gs : list utable.
+  Variable all_starts : list unt.
+
+  (** one entry per (rule, alternative), rule by rule *)
+  Definition uentries (rs : list urule) : list (sym * ualt) :=
+    flat_map (fun r : urule => map (fun alt => (fst r, alt)) (snd r)) rs.
+  Definition entry_eqb (a b : sym * ualt) : bool := sym_eqb (fst a) (fst b) && ualt_eqb (snd a) (snd b).
+  Definition sexp_of_entries (x : unt) (rs : list urule) : sexp :=
+    L (map (fun e : sym * ualt => L [sexp_of_sym (fst e); ofOptNat (uindex abs gs x (fst e)); L (map sexp_of_unt (snd e))])
+           (uentries rs)).
+
+  Definition ustep_positions (tbl : utable) (d : list ustep) : sexp :=
+    L (map (fun st : ustep =>
+              L [ofOptNat (pos_of unt_eqb (fst (fst st)) (map fst tbl));
+                 ofOptNat (match urules_of tbl (fst (fst st)) with
+                           | Some rs => pos_of entry_eqb (snd (fst st), snd st) (uentries rs)
+                           | None => None
+                           end)]) d).
+
+  Definition first_start (tbl : utable) (starts : list unt) (p : prog) : option (nat * unt) :=
+    (fix go (l : list unt) (i : nat) : option (nat * unt) :=
+       match l with
+       | [] => None
+       | x :: r => if ucontains_at tbl x p then Some (i, x) else go r (S i)
+       end) starts O.
+
+  Definition sexp_of_uprog_answer (tbl : utable) (starts : list unt) (p : prog) : sexp :=
+    match first_start tbl starts p with
+    | None => L []
+    | Some (i, x) =>
+      L [ofNat (length (uderivations_all tbl starts p)); ofNat i;
+         L (map ofNat (uencode abs gs tbl starts p));
+         match uderivations_from tbl x p with d :: _ => ustep_positions tbl d | [] => A (-3) end]
+    end.
+
+  Definition sexp_of_ugrammar (g : utable * list unt) (ps : list prog) : sexp :=
+    let (tbl, starts) := g in
+    L [L (map (fun x => L [sexp_of_unt x; abs x; ofOptNat (ustart_index abs gs all_starts x)]) starts);
+       L (map (fun xr : unt * list urule => L [sexp_of_unt (fst xr); abs (fst xr); sexp_of_entries (fst xr) (snd xr)]) tbl);
+       L (map (sexp_of_uprog_answer tbl starts) ps)].
+End UAnswer.
+
+Definition run_ulayer (s : sexp) : sexp :=
+  match s with
+  | L [g; a; ps] =>
+    match asListOf ugrammar_of_sexp g, asNat a, asListOf (asListOf prog_of_sexp) ps with
+    | Some Gs, Some aid, Some progs =>
+      if Nat.eqb (length Gs) (length progs) then
+        let abs := uabs_by_id aid in
+        let gs := map fst Gs in
+        let all_starts := flat_map snd Gs in
+        L [L (map sexp_of_slice (uslices abs gs));
+           ofNat (uslice_size abs gs);
+           L (ustart_keys abs all_starts);
+           ofNat (uoutput_size abs gs all_starts);
+           L (map (fun gp => sexp_of_ugrammar abs gs all_starts (fst gp) (snd gp)) (combine Gs progs))]
+      else bad_case
+    | _, _, _ => bad_case
+    end
+  | _ => bad_case
+  end.
+
 Definition run_case (entry : Z) (s : sexp) : sexp :=
   match entry with
+  | 0 => L []
   | 1 => run_layer s
+  | 2 => run_ulayer s
   | _ => bad_case
   end.
